@@ -402,6 +402,32 @@ def r10_3(ctx, lc: LruClass) -> None:
     ctx.check(ok, "R10.3", params, "cache_parameters", "cache_parameters reports the same maxsize as cache_info and the typed flag")
 
 
+def _key_signature(lc: LruClass, m, depth: int = 0):
+    """([positional args text], typed text) of the CallKey.from_call invocation that builds
+    the key in method ``m`` — directly, or through one private helper method of the class."""
+    calls = [n for n in own_nodes(m.node) if isinstance(n, ast.Call) and norm(n.func).endswith("from_call")]
+    if len(calls) == 1:
+        c = calls[0]
+        pos = [norm(a) for a in c.args]
+        kws = {k.arg: norm(k.value) for k in c.keywords}
+        return (pos[:2], kws.get("typed") or (pos[2] if len(pos) > 2 else None))
+    if depth == 0:
+        for n in own_nodes(m.node):
+            if isinstance(n, ast.Call) and isinstance(n.func, ast.Attribute) and norm(n.func.value) == "self":
+                helper = lc.info.methods.get(n.func.attr) or lc.info.methods.get(lc.info.mangle(n.func.attr))
+                if helper is None:
+                    for name, cand in lc.info.methods.items():
+                        if name == n.func.attr:
+                            helper = cand
+                if helper is not None and helper.kind == "sync":
+                    sub = _key_signature(lc, helper, 1)
+                    if sub is not None:
+                        params = helper.param_names()[1:]
+                        mapping = dict(zip(params, [norm(a) for a in n.args]))
+                        return ([mapping.get(x, x) for x in sub[0]], sub[1])
+    return None
+
+
 def _field_from_param(lc: LruClass, fld: str, pname: str) -> bool:
     init = lc.info.methods["__init__"]
     for n in own_nodes(init.node):
@@ -565,20 +591,13 @@ def r10_5(ctx, classes: Dict[str, LruClass]) -> None:
         keys = {}
         for mname in ("__call__", "cache_discard"):
             m = lc.info.methods[mname]
-            calls = [n for n in own_nodes(m.node) if isinstance(n, ast.Call) and norm(n.func).endswith("from_call")]
-            names = m.param_names()
             va = m.node.args.vararg.arg if m.node.args.vararg else None
             kw = m.node.args.kwarg.arg if m.node.args.kwarg else None
-            ok = len(calls) == 1 and va is not None and kw is not None
-            sig = None
-            if ok:
-                c = calls[0]
-                pos = [norm(a) for a in c.args]
-                kws = {k.arg: norm(k.value) for k in c.keywords}
-                sig = (pos[:2], kws.get("typed") or (pos[2] if len(pos) > 2 else None))
-                ok = pos[:2] == [va, kw] and sig[1] is not None and sig[1].startswith("self.")
+            sig = _key_signature(lc, m)
+            ok = sig is not None and va is not None and kw is not None and sig[0] == [va, kw] \
+                and sig[1] is not None and sig[1].startswith("self.")
             keys[mname] = sig
-            ctx.check(bool(ok), "R10.5", m, calls[0] if calls else mname,
+            ctx.check(bool(ok), "R10.5", m, mname,
                       f"{mname} builds its key from its own (*args, **kwargs, typed flag)", witness=str(sig))
         ctx.check(keys["__call__"] == keys["cache_discard"] and keys["__call__"] is not None, "R10.5",
                   lc.info.methods["cache_discard"], "cache_discard",
